@@ -280,6 +280,21 @@ func cmdCheck(id string, args []string) int {
 				fmt.Printf("ENCODING-MISMATCH property=%s harness=%s witness %d native outcome %s\n", id, spec.Name, r.i+1, r.rr.Outcome)
 			}
 		}
+		// concrete fallback: paths the executor could not follow to their end (unsupported construct)
+		// are run natively on inputs that reach that point; a failing native run is a violation
+		// (one concrete input, reported as such), a clean one claims nothing
+		for i, w := range hs.Partials {
+			f := &Finding{Harness: spec.Name, Site: "partial", Model: w.Partial}
+			dir := filepath.Join(ld.verif, "replays", id, fmt.Sprintf("%s-partial-%d", spec.Name, i+1))
+			rr := replayP(ld, hs.fn, f, dir, spec.Params)
+			if strings.HasPrefix(rr.Outcome, "assert-fail:") || rr.Outcome == "panic" || rr.Outcome == "exit" {
+				violations++
+				fmt.Printf("VIOLATION property=%s replay=%s\n", id, dir)
+				fmt.Printf("  harness=%s native run fails (%s) on inputs of a path the executor could not follow to its end (%s): one concrete input, not a solver verdict\n", spec.Name, rr.Outcome, firstLine(w.Msg))
+			} else {
+				notes = append(notes, fmt.Sprintf("%s: a path ended at an unsupported construct (%s); its inputs run %s natively; nothing claimed for that path", spec.Name, firstLine(w.Msg), rr.Outcome))
+			}
+		}
 		// findings
 		nrep := 0
 		seenSite := map[string]int{}
